@@ -15,6 +15,9 @@ type C12Case struct {
 	Net    NetSpec   `json:"net"`
 	Inputs []float64 `json:"inputs"`
 	Extra  int       `json:"extra_steps"`
+	// Inputs2, when present, is a second input vector evaluated afterwards on the same solver instances without a
+	// flush in between: in a feed-forward network the outputs after enough steps depend on the loaded inputs only
+	Inputs2 []float64 `json:"inputs2,omitempty"`
 }
 
 func GenC12() *rapid.Generator[C12Case] {
@@ -25,6 +28,11 @@ func GenC12() *rapid.Generator[C12Case] {
 		for i := 0; i < nIn; i++ {
 			c.Inputs = append(c.Inputs, rapid.OneOf(rapid.Float64Range(-3, 3), rapid.Float64Range(-1, 1),
 				rapid.SampledFrom([]float64{0, 1, -1, 1e-3, -1e-3, 50, -50, 0.5})).Draw(t, "input"))
+		}
+		if rapid.Bool().Draw(t, "second vector") {
+			for i := 0; i < nIn; i++ {
+				c.Inputs2 = append(c.Inputs2, rapid.OneOf(rapid.Float64Range(-3, 3), rapid.SampledFrom([]float64{0, 1, -1, 0.5, 2})).Draw(t, "input2"))
+			}
 		}
 		return c
 	})
@@ -102,6 +110,24 @@ func CheckC12(c C12Case, rec *Rec) error {
 	if err = compareOutputs(fmt.Sprintf("Network.ForwardSteps(%d)", steps), net.ReadOutputs(), ref); err != nil {
 		return err
 	}
+	var ref2 *evalResult
+	if len(c.Inputs2) == nIn && nIn > 0 {
+		if r2, err := c.Net.evalFeedForward(c.Inputs2, true); err == nil && !r2.illPosed && r2.maxBound <= 1e-7 {
+			ref2 = &r2
+			rec.Class("second input vector on the same instances")
+		}
+	}
+	if ref2 != nil {
+		if err = net.LoadSensors(c.Inputs2); err != nil {
+			return fmt.Errorf("Network.LoadSensors (second vector): %v", err)
+		}
+		if _, err = net.ForwardSteps(steps); err != nil {
+			return fmt.Errorf("Network.ForwardSteps(%d) (second vector): %v", steps, err)
+		}
+		if err = compareOutputs(fmt.Sprintf("second input vector on the same network, Network.ForwardSteps(%d)", steps), net.ReadOutputs(), *ref2); err != nil {
+			return err
+		}
+	}
 	if nHid > 0 {
 		// propagating for exactly the reported depth (well defined with at least one hidden node, see C14)
 		net, _ = fresh()
@@ -111,6 +137,15 @@ func CheckC12(c C12Case, rec *Rec) error {
 		}
 		if err = compareOutputs("Network.RecursiveSteps", net.ReadOutputs(), ref); err != nil {
 			return err
+		}
+		if ref2 != nil {
+			_ = net.LoadSensors(c.Inputs2)
+			if _, err = net.RecursiveSteps(); err != nil {
+				return fmt.Errorf("Network.RecursiveSteps (second vector): %v", err)
+			}
+			if err = compareOutputs("second input vector on the same network, Network.RecursiveSteps", net.ReadOutputs(), *ref2); err != nil {
+				return err
+			}
 		}
 	}
 	// 2. the fast solver: forward stepping, recursive activation, relaxation (a fresh solver each)
@@ -147,6 +182,17 @@ func CheckC12(c C12Case, rec *Rec) error {
 		}
 		if err = compareOutputs(r.name, solver.ReadOutputs(), ref); err != nil {
 			return err
+		}
+		if ref2 != nil {
+			if err = solver.LoadSensors(c.Inputs2); err != nil {
+				return fmt.Errorf("fast LoadSensors (second vector): %v", err)
+			}
+			if err = r.f(solver); err != nil {
+				return fmt.Errorf("%s (second vector): %v", r.name, err)
+			}
+			if err = compareOutputs("second input vector on the same solver, "+r.name, solver.ReadOutputs(), *ref2); err != nil {
+				return err
+			}
 		}
 	}
 	return nil
